@@ -409,5 +409,8 @@ def check(run, project):
     # P8 (= C09-S3): results of separate decodes and of stream decodes are comparable only if the stream picks the encrypted
     # layout for a response exactly when the separate decode (told so by its caller) does: the predicate the stream asks
     # answers for the command's own session area, with the response direction's bit
-    c09.check(RuleView(run, "S3", "P8"), project)
+    try:
+        c09.check(RuleView(run, "S3", "P8"), project)
+    except AnalysisError as ex:
+        run.info(f"P8: the stream's encryption predicate could not be followed ({ex}); not judged here (C09 reports it)")
 
